@@ -42,6 +42,7 @@ def run(tier):
             (shim, "small G(2..4) x A2 on shims: 5 MPI entry points P=2 + TBB variants, menu transformations", [["--mode", "small", "--n", n, "--alpha", "A2", "--perms", "menu", "--orders", "menu", "--unions", "few",
                                                                                                           "--variants", "signed_mpi,fvs_mpi,fvs_tbb_mpi,iso_mpi,iso_tbb_mpi,signed_tbb,fvs_tbb,iso_tbb"] for n in range(2, 5)]),
             (real, "small G(4) x B3 (weights 2^25 + {1,2,3}: 26 significant bits), menu renumberings/orders, few unions, 6 variants", [["--mode", "small", "--n", 4, "--alpha", "B3", "--perms", "menu", "--orders", "menu", "--unions", "few"]]),
+            (real, "small G(4) x A2 with an exterior weight map (interior property holds decoys), menu renumberings/orders, few unions, 6 variants", [["--mode", "small", "--n", 4, "--alpha", "A2", "--perms", "menu", "--orders", "menu", "--unions", "few", "--wmap", 1]]),
             (real, "large menu (small families), 15 images each", [["--mode", "large", "--families", SMALL_FAMS, "--patterns", "U,M2,M3"]]),
             (real, "large menu (mid families), 3 images each", [["--mode", "large", "--families", MID_FAMS, "--patterns", "U,M3", "--few-images"]]),
             (real, "fixed menu of 960 pseudo-random sparse graphs n=8..24 x 2 pseudo-random weightings, 3 images each (renumbering + insertion order), 6 variants",
